@@ -169,7 +169,7 @@ pub fn run_e2e(ctx: &Ctx, case: &crate::props::c04::Case) -> Outcome {
 fn e2e_strategy() -> impl Strategy<Value = crate::props::c04::Case> {
     (crate::props::c04::case_strategy(), 0..3usize, 0..8usize).prop_map(|(mut c, at, pos)| {
         let pos = pos.min(c.steps.len());
-        c.steps.insert(pos, crate::props::c04::Step { at, cmd: crate::props::c04::Cmd::ForceElection, settle: false });
+        c.steps.insert(pos, crate::props::c04::Step { at, cmd: crate::props::c04::Cmd::ForceElection, settle: false, crlf: false });
         c
     })
 }
